@@ -301,6 +301,24 @@ func (env *Env) eval(x Expr) (*Val, error) {
 		if x.Forall {
 			q = "forall"
 		}
+		if len(x.Pats) > 0 {
+			var ps string
+			for _, grp := range x.Pats {
+				var ts []string
+				for _, pe := range grp {
+					pv, err := n.eval(pe)
+					if err != nil {
+						return nil, fmt.Errorf("trigger %s: %v", exprString(pe), err)
+					}
+					if len(pv.L) != 1 {
+						return nil, fmt.Errorf("trigger %s is not a scalar term", exprString(pe))
+					}
+					ts = append(ts, pv.L[0].T)
+				}
+				ps += " :pattern (" + strings.Join(ts, " ") + ")"
+			}
+			b = "(! " + b + ps + ")"
+		}
 		return mathVal("("+q+" ("+strings.Join(binders, " ")+") "+b+")", "Bool"), nil
 	case *ECall:
 		return env.evalCall(x)
